@@ -300,10 +300,12 @@ def greedyIter (evalSeq : List Nat â†’ Except Err (List Î±)) (order : List Nat â
       | some idx =>
         match st.pnas[idx]?, expected[idx]? with
         | some seq, some row =>
-          let (acts, possible) :=
-            match seq.getLast? with
-            | some a => (st.acts ++ [a], st.possible.erase a)
-            | none => (st.acts, st.possible)
+          let acts := match seq.getLast? with
+            | some a => st.acts ++ [a]
+            | none => st.acts
+          let possible := match seq.getLast? with
+            | some a => st.possible.erase a
+            | none => st.possible
           if acts.length < st.rows.length then
             .ok { rows := st.rows.set acts.length row, acts := acts, possible := possible,
                   pnas := (order acts possible).map (fun a => acts ++ [a]) }
